@@ -85,9 +85,27 @@ def simplify_plan(plan, test):
                 op["t"] = m[op.get("t", 0)]
             q["nthreads"] = max(1, len(used))
             q["switches"] = [[a, m[t], f] for a, t, f in [(x + [0])[:3] for x in q.get("switches", [])] if t in m]
+            for k in ("main_init", "main_free"):
+                if k in q:
+                    q[k] = [m[t] for t in q[k] if t in m]
             tests += 1
             if test(q):
                 p = q
+        # object handoff: is it needed at all?  then call by call
+        if any(op.get("ph") for op in p["ops"]) or p.get("main_init") or p.get("main_free"):
+            q = copy.deepcopy(p); q.pop("main_init", None); q.pop("main_free", None)
+            for op in q["ops"]:
+                op.pop("ph", None)
+            tests += 1
+            if test(q):
+                p = q
+            else:
+                for k in ("main_init", "main_free"):
+                    if p.get(k):
+                        q = copy.deepcopy(p); q.pop(k)
+                        tests += 1
+                        if test(q):
+                            p = q
         if p.get("switches"):
             def test_sw(sw):
                 q = dict(p); q["switches"] = sw
